@@ -1820,6 +1820,8 @@ def eager_getitem_lambda(op, lhs, rhs):
 def eager_getslice_lambda(op, x):
     index = normalize_ellipsis(op.defaults["index"], len(x.shape))
     head, tail = index[0], index[1:]
+    if isinstance(head, int) and head < 0:
+        head += x.var.output.size  # negative indices count from the end
     expr = x.expr
     if head != slice(None):
         expr = expr(**{x.var.name: head})
